@@ -98,6 +98,11 @@ def unit_contract_mul_quat(ctx):
     return (not lib.approx(lhs, rhs)), path
 
   ctx.prove(sess, "norm-product", Q.sq(p) == Q.sq(a) * Q.sq(b), names={"a": a.c[0]}, replay=rp, desc="mul_quat: |a*b|^2 != |a|^2 |b|^2 (a product of unit quaternions is not unit)")
+  # the multiplication-free consequences used by the kernel-level units
+  A, B, O = z3.Reals("A B O")
+  s2 = ctx.session([O == A * B])
+  ctx.prove(s2, "consequence/unit*unit=unit", O == 1, z3.And(A == 1, B == 1), replay=lambda m: (False, "arithmetic lemma"))
+  ctx.prove(s2, "consequence/nonzero*nonzero=nonzero", O != 0, z3.And(A != 0, B != 0), replay=lambda m: (False, "arithmetic lemma"))
 
 
 def unit_contract_axis_angle(ctx):
@@ -139,15 +144,12 @@ def unit_contract_normalize(ctx):
       if not np.allclose(got, want, rtol=1e-4, atol=1e-6):
         ctx.error(f"model of wp.normalize disagrees with the real builtin on {x[:n].tolist()}: real {got.tolist()} model {want.tolist()}")
   for nm, n, dt in (("quat", 4, "quat"), ("vec3", 3, "f")):
-    x = qv("x", n, dt)
-    it = Q.CInterp(normalize_contract=False)
-    o = it.builtin(None, "normalize", [x], None)
-    sess = ctx.session(it.assumes)
+    # o_i = x_i / l with l >= 0, l*l = |x|^2, multiplied out: o_i * l = x_i
+    x, o, l = qv("x", n, dt), qv("o", n, dt), z3.Real("l")
+    sess = ctx.session([l >= 0, l * l == Q.sq(x)] + [oc * l == xc for oc, xc in zip(o.c, x.c)])
     ctx.reach(sess, f"twin:{nm}", Q.sq(x) != 0)
-    # o_i = x_i / l with l*l = |x|^2, l > 0: multiply out
-    ctx.prove(sess, f"{nm}:nonzero=>unit", Q.sq(o) == 1, Q.sq(x) != 0, names={"x0": x.c[0]}, replay=lambda m: (False, "model of a builtin"), desc="normalize(x) is not unit")
-    zero = [0, 0, 0, 1] if dt == "quat" else [0, 0, 0]
-    ctx.prove(sess, f"{nm}:zero", z3.And(*[core.zbool(cmp("==", c, z)) for c, z in zip(o.c, zero)]), Q.is_zero(x), replay=lambda m: (False, "model of a builtin"), desc="normalize(0)")
+    ctx.prove(sess, f"{nm}:nonzero=>unit", Q.sq(o) * l * l == l * l, Q.sq(x) != 0, names={"x0": x.c[0]}, replay=lambda m: (False, "model of a builtin"), desc="normalize(x) is not unit")
+    ctx.prove(sess, f"{nm}:nonzero=>l>0", l > 0, Q.sq(x) != 0, replay=lambda m: (False, "model of a builtin"), desc="|x| = 0 for x != 0")
 
 
 def unit_contract_quat_integrate(ctx):
@@ -160,7 +162,7 @@ def unit_contract_quat_integrate(ctx):
   it = Q.CInterp(summaries=Q.summaries("mul_quat", "axis_angle_to_quat"))
   it, r = kh.run(M.quat_integrate, [q, v, dt], interp=it)
   sess = ctx.session(it.assumes)
-  ctx.reach(sess, "twin:unnormalised-q", And(Q.sq(q) != 1, Q.sq(q) != 0, Q.sq(v) != 0))
+  ctx.reach(sess, "twin:unnormalised-q", And(q.c[0] == 2, q.c[1] == 0, q.c[2] == 0, q.c[3] == 0, v.c[0] == 1, v.c[1] == 0, v.c[2] == 0, dt == 1))
   ctx.reach(sess, "twin:zero-q", Q.is_zero(q))
   names = {f"q{k}": q.c[k] for k in range(4)} | {f"v{k}": v.c[k] for k in range(3)} | {"dt": dt}
 
@@ -230,7 +232,7 @@ def unit_next_position(alias):
     ctx.encode(k, M.quat_integrate)
     ctx.assume("quat_integrate contract (unit contract/quat_integrate): unit result", "thread's own accesses in bounds (C17)", "jnt_type in {FREE, BALL, SLIDE, HINGE}")
     ctx.bound(shape_cap=12, aliasing="qpos_in is qpos_out" if alias else "qpos_in and qpos_out distinct arrays (RK4 stage)")
-    it = Q.CInterp(summaries=Q.summaries("quat_integrate"))
+    it = Q.CInterp(summaries=Q.summaries("quat_integrate"), norm="uf")
     kt = lib.kernel_thread(k, alias_inout=alias, cap=12, interp_kw={"interp": it})
     w, j = kt.tid
     JT = types.JointType
@@ -251,7 +253,7 @@ def unit_next_position(alias):
       ref = Q.qi_uf(qin, vin, ts)
       for i in range(4):
         ctx.prove(sess, f"{nm}/quat-slot[{i}]=quat_integrate", qn(off + i) == ref.c[i], T == tv, names=names, replay=rp(f"{nm}.slot{i}"), desc=f"_next_position ({nm} joint): quaternion slot {i} is not quat_integrate(q, w*scale, h)[{i}]")
-      ctx.prove(sess, f"{nm}/unit-after-step", Q.sq(Vec([qn(off + i) for i in range(4)], (4,), "quat")) == 1, T == tv, names=names, replay=rp(f"{nm}.unit"), desc=f"_next_position ({nm} joint): quaternion in qpos is not unit after the step")
+      ctx.prove(sess, f"{nm}/unit-after-step", Q.nsq_uf(Vec([qn(off + i) for i in range(4)], (4,), "quat")) == 1, T == tv, names=names, replay=rp(f"{nm}.unit"), desc=f"_next_position ({nm} joint): quaternion in qpos is not unit after the step")
     for i in range(3):
       ctx.prove(sess, f"free/pos[{i}]", qn(i) == qp(i) + ts * vel(i) * scale, T == int(JT.FREE), names=names, replay=rp(f"free.pos{i}"), desc="_next_position (free joint): translational slot is not pos + h*v")
     scalar = z3.Or(T == int(JT.SLIDE), T == int(JT.HINGE))
@@ -287,15 +289,18 @@ def unit_kinematics(unroll):
 
     k = smooth._kinematics_branch
     ctx.encode(k, M.mul_quat, M.axis_angle_to_quat)
-    ctx.bound(unroll=unroll, shape_cap=6, note=f"at most {unroll} bodies per branch and {unroll} joints per body are executed (unwinding assumption)")
+    ctx.bound(unroll=unroll, shape_cap=12, note=f"at most {unroll} bodies per branch and {unroll} joints per body are executed (unwinding assumption)")
     ctx.assume(
       "contracts of normalize, mul_quat, axis_angle_to_quat (units contract/*)",
       "xquat of a parent that this thread did not write is unit (world body: identity set by make_data; otherwise the previous element of the branch)",
       "body_quat, mocap_quat read by the thread are non-zero; jnt_axis of a hinge is unit (MuJoCo's compiler normalises them)",
-      "thread's own accesses in bounds (C17)",
+      "model fields are not batched per world (first dimension 1; world indexing is C09); array contents outside the thread's in-range accesses arbitrary",
+      "float products / quotients that do not enter a norm are uninterpreted (positions; irrelevant to the norm of xquat)",
     )
-    it = Q.CInterp(summaries=Q.summaries("mul_quat", "axis_angle_to_quat", "rot_vec_quat"))
-    kt = lib.kernel_thread(k, unroll=unroll, cap=6, interp_kw={"interp": it})
+    it = Q.CInterp(summaries=Q.summaries("mul_quat", "axis_angle_to_quat", "rot_vec_quat"), norm="uf", float_uf=True)
+    unb = {lab: [1, None] for lab in ("qpos0", "body_pos", "body_quat", "jnt_pos", "jnt_axis")}
+    kt = lib.kernel_thread(k, shapes=unb, unroll=unroll, cap=12, assume_bounds=False, interp_kw={"interp": it})
+    N = Q.nsq_uf
     w, br = kt.tid
     pre = []
     xq = kt.cell("xquat_out")
@@ -304,11 +309,11 @@ def unit_kinematics(unroll):
         continue
       nm = a.cell.name
       if nm in ("body_quat", "mocap_quat_in"):
-        pre.append(Implies(a.guard, Q.sq(a.val) != 0))
+        pre.append(Implies(a.guard, N(a.val) != 0))
       elif nm == "jnt_axis":
-        pre.append(Implies(a.guard, Q.sq(a.val) == 1))
+        pre.append(Implies(a.guard, N(a.val) == 1))
       elif a.cell is xq:
-        pre.append(Q.sq(xq.getv(a.idx, snap=xq.a0)) == 1)
+        pre.append(N(xq.getv(a.idx, snap=xq.a0)) == 1)
     sess = ctx.session(kt.bg + [core.zbool(p) for p in pre])
     writes = [a for a in kt.it.accesses if a.kind == "W" and a.cell is xq]
     if len(writes) < 2 * unroll:
@@ -318,7 +323,7 @@ def unit_kinematics(unroll):
     for n, a in enumerate(writes):
       ctx.reach(sess, f"twin:write{n}@{a.where}", a.guard)
       rp = lib.make_replay(ctx, kt, loc, f"xquat{n}", "goal", goal="checks.c23:goal_xquat_unit", env={"bodies": [a.idx[1]]})
-      ctx.prove(sess, f"xquat-unit/write{n}@{a.where.split(':')[-1]}", Q.sq(a.val) == 1, a.guard, names={"w": w, "branch": br, "body": a.idx[1]}, replay=rp, desc="_kinematics_branch writes an xquat that is not a unit quaternion")
+      ctx.prove(sess, f"xquat-unit/write{n}@{a.where.split(':')[-1]}", N(a.val) == 1, a.guard, names={"w": w, "branch": br, "body": a.idx[1]}, replay=rp, desc="_kinematics_branch writes an xquat that is not a unit quaternion")
 
   return (f"kinematics/branch-unroll{unroll}", run)
 
@@ -350,14 +355,14 @@ def unit_frames(kname, out, mquats):
     k = getattr(smooth, kname)
     ctx.encode(k, M.quat_to_mat, M.mul_quat)
     ctx.assume("contracts of quat_to_mat and mul_quat (units contract/*)", "xquat read by the thread is unit (kinematics/*)", f"model quaternions {mquats} are unit (MuJoCo's compiler normalises them)", "thread's own accesses in bounds (C17)")
-    it = Q.CInterp(summaries=Q.summaries("mul_quat", "quat_to_mat", "rot_vec_quat"))
+    it = Q.CInterp(summaries=Q.summaries("mul_quat", "quat_to_mat", "rot_vec_quat"), norm="uf")
     kt = lib.kernel_thread(k, cap=6, interp_kw={"interp": it})
     pre = []
     for a in kt.it.accesses:
       if a.kind == "R" and (a.cell.name in mquats or a.cell.name == "xquat_in"):
-        pre.append(Implies(a.guard, Q.sq(a.val) == 1))
+        pre.append(Implies(a.guard, Q.nsq_uf(a.val) == 1))
       if a.kind == "R" and a.cell.name == "cam_mat0":
-        pre.append(Implies(a.guard, Q.proper_rotation(a.val)))
+        pre.append(Implies(a.guard, Q.is_rot_uf(a.val)))
     cell = kt.cell(out)
     writes = [a for a in kt.it.accesses if a.kind == "W" and a.cell is cell]
     sess = ctx.session(kt.bg + [core.zbool(p) for p in pre])
@@ -376,7 +381,7 @@ def unit_frames(kname, out, mquats):
         lookat = z3.And(z3.Or(md == int(CL.TARGETBODY), md == int(CL.TARGETBODYCOM)), tgt >= 0)
         g = And(g, z3.Not(lookat))
       rp = lib.make_replay(ctx, kt, loc, f"{out}{n}", "goal", goal="checks.c23:goal_frames", env={"label": out})
-      ctx.prove(sess, f"proper-rotation/write{n}@{a.where.split(':')[-1]}", Q.proper_rotation(a.val), g, names={"w": kt.tid[0], "i": kt.tid[1]}, replay=rp, desc=f"{kname} writes a {out} that is not a proper rotation")
+      ctx.prove(sess, f"proper-rotation/write{n}@{a.where.split(':')[-1]}", Q.is_rot_uf(a.val), g, names={"w": kt.tid[0], "i": kt.tid[1]}, replay=rp, desc=f"{kname} writes a {out} that is not a proper rotation")
 
   return (f"frames/{kname}", run)
 
